@@ -75,6 +75,7 @@ def run(ctx) -> None:
     ctx.rule("R5", "--no-fetch: every fetch site implies the fetch option")
     ctx.rule("R6", "hooks receive BUMPVER_OLD_VERSION / BUMPVER_NEW_VERSION")
     ctx.rule("R7", "contradictory flags/config rejected before anything happens")
+    ctx.rule("R9", "a push / fetch command runs only with a non-empty remote")
     ctx.rule("R8", "every command name is in both the git and the hg table (or guarded by name == 'git')")
 
     root = "cli._update"
@@ -444,3 +445,54 @@ def run(ctx) -> None:
             ctx.check("R8", both or (guard is not None and cmd in table.get(guard, {})), f"command '{cmd}' exists for git and hg" + ("" if both else f" (guarded: {guard} only)"),
                       f"vcs: command '{cmd}' is missing from a command table", f"git: {cmd in table['git']}, hg: {cmd in table['hg']}", loc=s.loc)
     ctx.floor("R8", "VCS command sites", n_sites, 14)
+
+    # ---------------------------------------------------------------- R7 (config side): tag / push without commit are refused when the config is read
+    from sa.report import run_prerequisite
+    run_prerequisite(ctx, "C18", ("R4",), "R7")
+
+    # ---------------------------------------------------------------- R9
+    # `{remote}` sites: the value comes from get_remote(); the command may only run when it is a non-empty string.
+    # Either the site is guarded by the truthiness of the value, or get_remote never returns an empty string.
+    gr = prog.function("vcs.VCSAPI.get_remote")
+    ctx.visit(gr.fq)
+    gcfg_ = cfgs.get(gr.fq)
+    gpc_ = PathCond(gcfg_)
+    maybe_empty = []
+    for n in gcfg_.nodes:
+        if n.kind == "stmt" and isinstance(n.ast, ast.Return) and n.ast.value is not None and n.id in gcfg_.reachable():
+            v = shapes.inline(gr, n.ast.value, prog)
+            if isinstance(v, ast.Constant) and (v.value is None or (isinstance(v.value, str) and v.value != "")):
+                continue
+            if isinstance(v, ast.Subscript):
+                continue          # a regex group of the branch listing: present means non-empty (`\\S+`-like groups); not decided here
+            r = gpc_.reach(n.id)
+            txt = unparse(n.ast.value)
+            guards = [a for a in r.atoms if a.replace('"', "'") in (f"{txt} == ''", f"{unparse(v)} == ''", txt, unparse(v))]
+            ok_ = any((g.endswith("== ''") and r.implies(~BF.var(g))) or (not g.endswith("== ''") and r.implies(BF.var(g))) for g in guards)
+            if not ok_:
+                maybe_empty.append(n)
+    n_remote = 0
+    for fq_ in sorted(effects.sites):
+        if not fq_.startswith("vcs.VCSAPI."):
+            continue
+        fn_ = prog.function(fq_)
+        for s_ in effects.sites[fq_]:
+            if not (s_.effect.startswith("VCS_MUTATE:push") or s_.effect.startswith("VCS_FETCH")) or not isinstance(s_.node, ast.Call):
+                continue
+            kw = {k.arg: k.value for k in s_.node.keywords}
+            c_ = cfgs.get(fq_)
+            pc_ = PathCond(c_)
+            r = pc_.reach(c_.node_containing(s_.node))
+            if "remote" in kw:
+                n_remote += 1
+                val = unparse(kw["remote"])
+                truthy = val in r.atoms and r.implies(BF.var(val))
+            else:
+                # fetch: guarded by the truthiness of get_remote() itself
+                n_remote += 1
+                truthy = any("get_remote()" in a and r.implies(BF.var(a)) for a in r.atoms)
+            ctx.check("R9", truthy or not maybe_empty, f"{fq_} L{s_.node.lineno}: runs only with a non-empty remote",
+                      f"{fq_}: the {s_.detail.get('cmd')} command can run with an empty remote",
+                      f"the site is reached when {r.drop_unused().to_dnf()} and get_remote() can return an empty string (`{unparse(maybe_empty[0].ast) if maybe_empty else ''}`): "
+                      f"without a configured remote `git push  --follow-tags <tag> HEAD` / `hg push` is issued", loc=fn_.loc(s_.node))
+    ctx.floor("R9", "push / fetch sites", n_remote, 3)
